@@ -23,6 +23,7 @@ import (
 	"sort"
 	"strconv"
 	"strings"
+	"sync"
 	"unsafe"
 
 	"github.com/tetratelabs/wazero"
@@ -195,6 +196,16 @@ func drawParams(r *core.Rng, t *template, m *mem) params {
 		}
 		setVar(&t.Vars[a.Var], base)
 	}
+	if m.size() == 0 && r.Bool() {
+		// empty memory: zero-length bulk operations at address 0 are the only
+		// accesses that succeed; whatever follows a grow then runs at small addresses
+		p.P1 = 0
+		for i := range t.Vars {
+			setVar(&t.Vars[i], 0)
+		}
+	} else if r.Chance(1, 10) {
+		p.P1 = 0
+	}
 	// expected operand of cmpxchg / wait: half of the time the current value
 	needOld := false
 	for _, s := range acc {
@@ -342,9 +353,10 @@ type crashInfo struct {
 	fault         uint64
 	hasAddr       bool
 	isFault       bool
+	lowAddr       bool // fault address below 4096 (the runtime turned it into a nil-dereference panic and could not unwind)
 }
 
-var reFaultAddr = regexp.MustCompile(`unexpected fault address (0x[0-9a-f]+)|addr=(0x[0-9a-f]+)`)
+var reFaultAddr = regexp.MustCompile(`C02FAULT addr=(0x[0-9a-f]+)|unexpected fault address (0x[0-9a-f]+)`)
 
 func parseCrash(ci caseIn, cr *core.Crash) (ci2 crashInfo) {
 	x := crashInfo{runIdx: -1, tuple: -1}
@@ -373,13 +385,24 @@ func parseCrash(ci caseIn, cr *core.Crash) (ci2 crashInfo) {
 	// or the process just dies of SIGSEGV.
 	x.isFault = strings.Contains(cr.Detail, "fault") || strings.Contains(cr.Detail, "SIGSEGV") ||
 		(strings.Contains(cr.Detail, "split stack overflow") && bytes.Contains(seg, []byte("runtime.sigpanic")))
-	if m := reFaultAddr.FindSubmatch(seg); m != nil {
+	if strings.Contains(cr.Detail, "unknown caller pc") && bytes.Contains(seg, []byte("runtime.panicmem")) && bytes.Contains(seg, []byte("runtime.sigpanic")) {
+		x.isFault, x.lowAddr = true, true
+	}
+	// the first report after the last journal line is the guest fault (later
+	// ones may come from the runtime crashing while it handles the first)
+	tail := seg
+	if loc := reAt.FindAllIndex(seg, -1); len(loc) > 0 {
+		tail = seg[loc[len(loc)-1][1]:]
+	}
+	if m := reFaultAddr.FindSubmatch(tail); m != nil {
 		h := string(m[1])
 		if h == "" {
 			h = string(m[2])
 		}
 		x.fault, _ = strconv.ParseUint(h[2:], 16, 64)
 		x.hasAddr = true
+		x.isFault = true
+		x.lowAddr = false
 	}
 	return x
 }
@@ -392,16 +415,17 @@ func handleCrash(c *core.Ctx, ci caseIn, cr *core.Crash) int {
 		c.Violate("child-crash:"+cr.Kind+":"+crashWords(cr.Detail), cr.Detail, map[string]any{"case": ci, "crash": cr})
 		return -1
 	}
-	if x.isFault && !x.hasAddr && x.runIdx >= 0 && x.tuple >= 0 && faultRetries < 40 {
-		// no address in this report: run the same tuples again (other stack
-		// placement) until the runtime prints one
-		for try := 0; try < 3 && !x.hasAddr; try++ {
+	if x.isFault && !x.hasAddr && !x.lowAddr && x.runIdx >= 0 && x.tuple >= 0 && faultRetries < 40 {
+		// no address in this report (binary built without cgo, so without the
+		// fault reporter of sigaddr_cgo.go): run the same tuples again, another
+		// stack placement may let the Go runtime print it
+		for try := 0; try < 3 && !x.hasAddr && !x.lowAddr; try++ {
 			faultRetries++
 			pc := caseIn{Seed: ci.Seed, Tuples: ci.Tuples, Pin: &pinSpec{Run: x.runIdx, Tuple: x.tuple}}
 			r := core.RunCases(c, "tmpl", []json.RawMessage{core.J(pc)}, core.ChildOpts{Batch: 1, TimeoutS: 60, Par: 1})
 			c.Count("crash_localisation_children", 1)
 			if r[0].Crash != nil {
-				if y := parseCrash(ci, r[0].Crash); y.found && y.hasAddr && y.runIdx == x.runIdx {
+				if y := parseCrash(ci, r[0].Crash); y.found && (y.hasAddr || y.lowAddr) && y.runIdx == x.runIdx {
 					x, cr = y, r[0].Crash
 				}
 			}
@@ -412,7 +436,7 @@ func handleCrash(c *core.Ctx, ci caseIn, cr *core.Crash) int {
 		c.Violate("child-crash:"+cr.Kind+":"+crashWords(cr.Detail), cr.Detail, map[string]any{"case": ci, "crash": cr, "run": runIdx, "tuple": tuple})
 		return runIdx
 	}
-	if !x.hasAddr {
+	if !x.hasAddr && !x.lowAddr {
 		c.Count("redzone_hits", 1)
 		c.Violate(runCfgs[runIdx].engine()+":fault-without-reported-address:"+crashWords(cr.Detail), runCfgs[runIdx].String()+": the child died of a memory fault while executing tuple "+strconv.Itoa(tuple)+" but the Go runtime did not print the address: "+cr.Detail,
 			map[string]any{"case": ci, "crash": cr, "run": runCfgs[runIdx].String(), "tuple": tuple})
@@ -445,21 +469,45 @@ func handleCrash(c *core.Ctx, ci caseIn, cr *core.Crash) int {
 	var hit *dynAccess
 	formula := ""
 	localised := ""
-	if region >= 0 {
-		delta := int64(fault) - int64(bases[region])
-		cands := matchFault(exp.Trace, delta, region, len(bases), rc.Moving)
-		if len(cands) > 0 {
-			k := pinCulprit(c, ci, runIdx, tuple, cands)
-			hit, formula = cands[k].a, cands[k].formula
-			switch {
-			case len(cands) == 1:
-				localised = "only this access explains the address"
-			case pinOK:
-				localised = fmt.Sprintf("%d accesses explain the address; chosen by re-running with the function truncated after each of them (best effort: truncation changes use counts)", len(cands))
-			default:
-				localised = fmt.Sprintf("%d accesses explain the address; not localised (budget), last one shown", len(cands))
+	choose := func(cands []faultCand) {
+		if len(cands) == 0 {
+			return
+		}
+		k := pinCulprit(c, ci, runIdx, tuple, cands)
+		hit, formula = cands[k].a, cands[k].formula
+		switch {
+		case len(cands) == 1:
+			localised = "only this access explains the address"
+		case pinOK:
+			localised = fmt.Sprintf("%d accesses explain the address; chosen by re-running with the function truncated after each of them (best effort: truncation changes use counts)", len(cands))
+		default:
+			localised = fmt.Sprintf("%d accesses explain the address; not localised (budget), last one shown", len(cands))
+		}
+	}
+	absolute := false
+	switch {
+	case x.lowAddr:
+		// address unknown but below 4096: an access whose guest address is below 4096 executed with memory base 0
+		where = "an absolute host address below 4096 (the Go runtime reported a nil dereference inside generated code)"
+		var cands []faultCand
+		seen := map[int]bool{}
+		for i := range exp.Trace {
+			a := &exp.Trace[i]
+			if ea := uint64(a.Base) + uint64(a.Off); ea < 4096 && coarse(a.Class) != "bulk" && !seen[a.ID] {
+				seen[a.ID] = true
+				cands = append(cands, faultCand{a, "base+offset"})
 			}
 		}
+		choose(cands)
+		absolute = true
+	case region < 0 && fault < 1<<33:
+		// far below every mapping: the guest address itself used as host address (memory base 0)
+		where = fmt.Sprintf("absolute host address %#x", fault)
+		choose(matchFault(exp.Trace, int64(fault), 0, 1, false, true))
+		absolute = true
+	case region >= 0:
+		delta := int64(fault) - int64(bases[region])
+		choose(matchFault(exp.Trace, delta, region, len(bases), rc.Moving, false))
 		switch {
 		case delta < 0:
 			where = fmt.Sprintf("memory base - %#x", -delta)
@@ -470,13 +518,19 @@ func handleCrash(c *core.Ctx, ci caseIn, cr *core.Crash) int {
 			where += fmt.Sprintf(" of reservation #%d (stale: the memory has since moved to reservation #%d)", region, len(bases)-1)
 		}
 	}
-	if hit != nil {
+	memCfg := fmt.Sprintf("shared=%v:initial-pages-0=%v", t.Shared, t.InitPages == 0)
+	switch {
+	case absolute:
+		// the memory base used by the generated code was 0
+		sig += "guest-address-used-as-host-address(memory-base-0):" + memCfg
+	case hit != nil:
 		// (the events since the last use of the base value are in the detail
 		// only: which of several accesses with the same address faulted depends
-		// on use counts that the localisation by truncation perturbs)
-		sig += formula + ":" + coarse(hit.Class) + ":base=" + strings.SplitN(hit.VarKind, ":", 2)[0]
-
-	} else {
+		// on use counts that the localisation by truncation perturbs; the
+		// instruction class is in the detail only, too: one address-computation
+		// defect shows through plain, atomic and bulk accesses alike)
+		sig += formula + ":base=" + strings.SplitN(hit.VarKind, ":", 2)[0]
+	default:
 		sig += "unmatched:"
 		switch {
 		case region < 0:
@@ -486,14 +540,15 @@ func handleCrash(c *core.Ctx, ci caseIn, cr *core.Crash) int {
 		default:
 			sig += "above-base"
 		}
+		sig += ":" + memCfg
 	}
 	bin := t.module()
 	detail := fmt.Sprintf("%s: process fault at %#x = %s while executing tuple %d (%s); memory %d pages initially (max %d, shared=%v, imported=%v)",
 		rc, fault, where, tuple, pstr(tuples, tuple), t.InitPages, t.MaxPages, t.Shared, t.Imported)
 	if hit != nil {
 		detail += "; " + localised
-		detail += fmt.Sprintf("; matches access #%d %s base=%#x (%s) offset=%#x: faulting address = membase + %s; model: mem size %#x, since last use of this base value: %s",
-			hit.ID, hit.Op, hit.Base, hit.VarKind, hit.Off, formula, hit.Size, hit.Since)
+		detail += fmt.Sprintf("; matches access #%d %s (%s) base=%#x (%s) offset=%#x: faulting address computed as %s; model: mem size %#x, since last use of this base value: %s",
+			hit.ID, hit.Op, coarse(hit.Class), hit.Base, hit.VarKind, hit.Off, formula, hit.Size, hit.Since)
 	}
 	c.Violate(sig, detail, map[string]any{"case": ci, "run": rc.String(), "tuple": tuple, "params": pstr(tuples, tuple), "fault_address": fmt.Sprintf("%#x", fault),
 		"reservations": bases, "where": where, "matched_access": hit, "model_trace": exp.Trace, "crash": cr, "module": strings.Split(wdis.Module(bin), "\n")})
@@ -527,7 +582,7 @@ type faultCand struct {
 // matchFault lists the model accesses (first dynamic occurrence per static
 // access) whose correctly or wrongly computed address explains the fault
 // offset delta relative to the base of the reservation that was hit.
-func matchFault(trace []dynAccess, delta int64, region, nRegions int, moving bool) (out []faultCand) {
+func matchFault(trace []dynAccess, delta int64, region, nRegions int, moving, absolute bool) (out []faultCand) {
 	seen := map[int]bool{}
 	for i := range trace {
 		a := &trace[i]
@@ -547,9 +602,9 @@ func matchFault(trace []dynAccess, delta int64, region, nRegions int, moving boo
 		sb, so := int64(int32(a.Base)), int64(int32(a.Off))
 		var cs []cand
 		if coarse(a.Class) == "bulk" {
-			cs = []cand{{"dst", b}, {"sext32(dst)", sb}, {"src", int64(a.Src)}, {"sext32(src)", int64(int32(uint32(a.Src)))}}
+			cs = []cand{{"base", b}, {"sext32(base)", sb}, {"src", int64(a.Src)}, {"sext32(src)", int64(int32(uint32(a.Src)))}}
 		} else {
-			cs = []cand{{"base+offset", b + o}, {"sext32(base)+offset", sb + o}, {"base+sext32(offset)", b + so}, {"sext32(base)+sext32(offset)", sb + so},
+			cs = []cand{{"base+offset", b + o}, {"sext32(base)", sb + o}, {"sext32(offset)", b + so}, {"sext32(base)+sext32(offset)", sb + so},
 				{"wrap32(base+offset)", int64(uint32(a.Base + a.Off))}, {"sext32(wrap32(base+offset))", int64(int32(a.Base + a.Off))}}
 		}
 		for k, c := range cs {
@@ -557,12 +612,12 @@ func matchFault(trace []dynAccess, delta int64, region, nRegions int, moving boo
 				continue
 			}
 			inb := c.v >= 0 && uint64(c.v)+uint64(n) <= a.Size
-			if inb && !stale {
+			if inb && !stale && !absolute {
 				continue // cannot fault
 			}
 			name := c.name
 			if k == 0 {
-				name = "correct-address(" + name + ")-not-bounds-checked"
+				name = "correct-address-not-bounds-checked"
 				if stale {
 					name = "correct-offset-from-stale-base"
 				}
@@ -635,7 +690,10 @@ func crashWords(s string) string {
 
 // ---- child ----
 
+var faultReporter sync.Once
+
 func child(mode string, in json.RawMessage) any {
+	faultReporter.Do(installFaultReporter)
 	var ci caseIn
 	json.Unmarshal(in, &ci)
 	t, tuples := build(ci)
